@@ -32,6 +32,7 @@ from __future__ import annotations
 import ast
 
 from ..algebra import normal_form, poly_equal
+from ..astutil import first_stmt, last_stmt  # noqa: F401
 from ..astutil import (ancestors, call_name, calls_in, guards_of, norm, single_def_value, stmt_of,
                        stores_to, walk_no_nested)
 from ..cfg import CFG
@@ -62,7 +63,7 @@ def _index_guarded(fn: ast.AST, idx: ast.expr, use_line: int) -> bool:
     """copy_point idiom: `if idx < 0 or idx >= self._size: raise` earlier in fn."""
     t = norm(idx)
     for n in walk_no_nested(fn):
-        if isinstance(n, ast.If) and n.body and isinstance(n.body[0], ast.Raise) and n.lineno < use_line:
+        if isinstance(n, ast.If) and isinstance(first_stmt(n.body), ast.Raise) and n.lineno < use_line:
             parts = {norm(v) for v in (n.test.values if isinstance(n.test, ast.BoolOp) and isinstance(n.test.op, ast.Or) else [n.test])}
             if f'{t} < 0' in parts and (f'{t} >= self._size' in parts or f'{t} > self._size - 1' in parts):
                 return True
